@@ -35,9 +35,11 @@ for d in sorted(glob.glob(os.path.join(VERIF, "seeded", "*", "meta.json"))):
     if len(summ) > 230:
         summ = summ[:230].rsplit(" ", 1)[0] + " …"
     res = "caught by " + ", ".join(now_c) if now_c else "MISSED"
+    if not now_c and m.get("neutralised_by"):
+        res = "not a breaking change any more (neutralised by fix %s)" % m["neutralised_by"]
     if now_m:
         res += "; not seen by " + ", ".join(now_m)
-    if first_c != now_c and not first_c:
+    if first_c != now_c and not first_c and not (m.get("final_status") or "").startswith(("missed", "quick missed")) and now_c:
         res += " — missed at first"
     if m.get("final_status") and m["final_status"] != "caught":
         res += " — " + m["final_status"]
